@@ -233,6 +233,8 @@ fn to_onnx(p: &CfProg) -> Vec<u8> {
         g.inputs.push(onnx::ValueInfo::fixed(n, onnx::dtype::BOOL, &[]));
     }
     g.initializers.push(onnx::Tensor::f32("c0", &[2, 2], &const0().data));
+    g.initializers.push(onnx::Tensor::f32("b1", &[2], &bias1().data));
+    g.initializers.push(onnx::Tensor::f32("s2", &[], &[2.0]));
     g.initializers.push(onnx::Tensor::bool("ctrue", &[], &[true]));
     g.initializers.push(onnx::Tensor::bool("cfalse", &[], &[false]));
     onnx::model_bytes(&g)
@@ -240,6 +242,9 @@ fn to_onnx(p: &CfProg) -> Vec<u8> {
 
 fn const0() -> NArr {
     NArr::new(&[2, 2], vec![1.0, -1.0, 2.0, 0.0])
+}
+fn bias1() -> NArr {
+    NArr::new(&[2], vec![1.0, -1.0])
 }
 fn x0_val() -> NArr {
     NArr::new(&[2, 2], vec![1.0, -2.0, 3.0, 0.0])
@@ -420,6 +425,59 @@ pub fn programs(thorough: bool) -> Vec<CfProg> {
             }
         }
     }
+    // ---- a control-flow op captures the INTERMEDIATE value of a pattern that the optimizer
+    // fuses (the fused operator no longer produces that value); the pattern's final output is
+    // a graph output too, and nothing else in the parent graph consumes the intermediate
+    let fusable: Vec<(&str, Vec<N>)> = vec![
+        ("Transpose+MatMul", vec![s(OpK::Transpose, &["x0"], "f_mid"), s(OpK::MatMul, &["f_mid", "c0"], "f_y")]),
+        ("MatMul+Add(bias)", vec![s(OpK::MatMul, &["x0", "c0"], "f_mid"), s(OpK::Add, &["f_mid", "b1"], "f_y")]),
+        ("Mul(scalar)+MatMul", vec![s(OpK::Mul, &["x0", "s2"], "f_mid"), s(OpK::MatMul, &["f_mid", "c0"], "f_y")]),
+        ("MatMul+Mul(scalar)", vec![s(OpK::MatMul, &["x0", "c0"], "f_mid"), s(OpK::Mul, &["f_mid", "s2"], "f_y")]),
+        ("Identity+Relu", vec![s(OpK::Identity, &["x0"], "f_mid"), s(OpK::Relu, &["f_mid"], "f_y")]),
+        ("Transpose+Transpose+MatMul", vec![s(OpK::Transpose, &["x0"], "f_mid"), s(OpK::Transpose, &["c0"], "f_t2"), s(OpK::MatMul, &["f_mid", "f_t2"], "f_y")]),
+        ("MatMul+Add(bias)+Relu", vec![s(OpK::MatMul, &["x0", "c0"], "f_m0"), s(OpK::Add, &["f_m0", "b1"], "f_mid"), s(OpK::Relu, &["f_mid"], "f_y")]),
+    ];
+    for (fname, pat) in &fusable {
+        let fvals = ["f_mid", "x0"];
+        for tb in bodies(&fvals, "t_out", "t_tmp", false).into_iter().filter(|b| format!("{b:?}").contains("f_mid")) {
+            for cond in ["ctrue", "cfalse", "bcond_t", "bcond_f"] {
+                for cf_first in [false, true] {
+                    let bool_inputs = match cond {
+                        "bcond_t" => vec![("bcond_t".to_string(), true)],
+                        "bcond_f" => vec![("bcond_f".to_string(), false)],
+                        _ => vec![],
+                    };
+                    let iff = N::If {
+                        cond: cond.to_string(),
+                        then_b: Block { params: vec![], nodes: tb.clone(), outputs: vec!["t_out".into()] },
+                        else_b: Block { params: vec![], nodes: vec![s(OpK::Sub, &["f_mid", "c0"], "e_out")], outputs: vec!["e_out".into()] },
+                        outs: vec!["if_out".into()],
+                    };
+                    // the control-flow node sits either after the whole pattern or between the
+                    // producer of the intermediate and the pattern's last operator
+                    let mut nodes: Vec<N> = pat[..pat.len() - 1].to_vec();
+                    if cf_first {
+                        nodes.push(iff);
+                        nodes.push(pat[pat.len() - 1].clone());
+                    } else {
+                        nodes.push(pat[pat.len() - 1].clone());
+                        nodes.push(iff);
+                    }
+                    out.push(CfProg { top: Block { params: vec![], nodes, outputs: vec!["f_y".into(), "if_out".into()] }, bool_inputs, class: format!("If capturing the intermediate of a fusable pattern; {fname}") });
+                }
+            }
+        }
+        for trip in [0i64, 2] {
+            let body = Block {
+                params: vec!["iter".into(), "cond_in".into(), "v_in".into()],
+                nodes: vec![s(OpK::Add, &["v_in", "f_mid"], "v_out"), N::S(OpK::Identity, vec!["cond_in".into()], "cond_out".into())],
+                outputs: vec!["cond_out".into(), "v_out".into()],
+            };
+            let mut nodes = pat.clone();
+            nodes.push(N::Loop { trip, cond0: true, carried: vec!["c0".into()], body, outs: vec!["l_v".into()] });
+            out.push(CfProg { top: Block { params: vec![], nodes, outputs: vec!["f_y".into(), "l_v".into()] }, bool_inputs: vec![], class: format!("Loop capturing the intermediate of a fusable pattern; {fname}") });
+        }
+    }
     // ---- nesting: If inside Loop, Loop inside If
     for (pre, vals) in pre_variants() {
         for &u in &vals {
@@ -517,6 +575,8 @@ fn check(ctx: &Ctx, p: &CfProg, st: &mut St) {
     let mut base: HashMap<String, V> = HashMap::new();
     base.insert("x0".into(), V::F(x0_val()));
     base.insert("c0".into(), V::F(const0()));
+    base.insert("b1".into(), V::F(bias1()));
+    base.insert("s2".into(), V::F(NArr::new(&[], vec![2.0])));
     base.insert("ctrue".into(), V::B(true));
     base.insert("cfalse".into(), V::B(false));
     for (n, b) in &p.bool_inputs {
@@ -675,7 +735,7 @@ pub fn run(ctx: Ctx) -> ! {
     let cov: Json = json!({
         "evaluations": t.runs,
         "distinct_nontrivial": progs.len() as u64 - t.ref_failed,
-        "rule": "template programs with exhaustively filled holes: If (3 parent prefixes x all 1-2 op then-bodies over captured values x else bodies x 4 conditions (2 constant, 2 run-time) x capture-reuse patterns), two Ifs sharing a capture, Loop (trip 0..3 x 4 condition modes x every carried init x all update bodies x scan none/identity/add x reuse patterns), If-in-Loop, Loop-in-If; each x optimize on/off x owned/borrowed input; non-trivial = programs the reference can evaluate",
+        "rule": "template programs with exhaustively filled holes: If (3 parent prefixes x all 1-2 op then-bodies over captured values x else bodies x 4 conditions (2 constant, 2 run-time) x capture-reuse patterns), two Ifs sharing a capture, If/Loop capturing the intermediate value of each of 7 optimizer-fusable parent patterns (Transpose+MatMul, MatMul+Add(bias), Mul(scalar)+MatMul, MatMul+Mul(scalar), Identity+Relu, Transpose x2+MatMul, MatMul+Add+Relu; control-flow node after the pattern or between its operators), Loop (trip 0..3 x 4 condition modes x every carried init x all update bodies x scan none/identity/add x reuse patterns), If-in-Loop, Loop-in-If; each x optimize on/off x owned/borrowed input; non-trivial = programs the reference can evaluate",
         "samples": samples.take(),
         "exhaustive": true,
         "programs": progs.len(),
